@@ -13,6 +13,7 @@ import WS.Model.Pool
 import WS.Model.Ping
 import WS.Model.DialReq
 import WS.Model.Mu
+import WS.Model.Timeout
 /-
   Command table of the driver.  Every command is a pure function String → String.
 -/
@@ -407,6 +408,25 @@ def cmdPingReg (args : List String) : String :=
     | none => "bad-args"
   | _ => "bad-args"
 
+/-- `timeout evs`: evs = comma-separated `r<k>` / `w<k>` (context k handed over on the read / write channel; k = `b`
+for Background), `x<k>` (context k is cancelled), `C` (the connection is closed by someone else). Prints the closed
+flag after every event. -/
+def cmdTimeout (args : List String) : String :=
+  match args with
+  | [evs] =>
+    let ctxOf (t : String) : Option (Option Nat) := if t == "b" then some none else t.toNat?.map some
+    let evOf (e : String) : Option Model.Timeout.Ev :=
+      match e.toList with
+      | 'r' :: t => (ctxOf (String.ofList t)).map .armRead
+      | 'w' :: t => (ctxOf (String.ofList t)).map .armWrite
+      | 'x' :: t => (String.ofList t).toNat?.map .cancel
+      | ['C'] => some .connClosed
+      | _ => none
+    match (evs.splitOn ",").mapM evOf with
+    | some es => String.intercalate "," ((Model.Timeout.trace es Model.Timeout.init).map fun b => if b then "1" else "0")
+    | none => "bad-op"
+  | _ => "bad-op"
+
 /-- `mu ops`: ops = comma-separated `L<k><r>` (lock under a context of kind k = v live | p already cancelled |
 s expiring soon, which returned r = o nil | c net.ErrClosed | x the context's error), `T` tryLock, `F` forceLock,
 `U` unlock, `C` the connection is closed. Prints per op what the channel holds afterwards (`L:0`/`L:1`, `T:<bool>:<full>`, …);
@@ -516,6 +536,7 @@ def handle (line : String) : String :=
     | "deadline" => cmdDeadline args
     | "pingreg" => cmdPingReg args
     | "mu" => cmdMu args
+    | "timeout" => cmdTimeout args
     | "dial-req" => cmdDialReq args
     | "json-rt" => cmdJsonRt args
     | "pool-monitor" => cmdPoolMonitor args
